@@ -717,3 +717,34 @@ Proof.
   unfold GI in HG. rewrite Hr in HG. destruct HG as [Hb Hc]; [now right|].
   apply delivered_of; auto. now rewrite Hr.
 Qed.
+
+(** * C08: an Err answer evicts exactly the answering subscriber *)
+Definition sink_err_of (e : ev) : option N :=
+  match e with
+  | ESinkReady k RErr | ESinkFlush k RErr | ESinkSend k _ false => Some k
+  | _ => None
+  end.
+
+Lemma evict_only_that_one s e s' k :
+  Inv s -> step_raw s e = Some s' -> sink_err_of e = Some k ->
+  ~ In k (sinks s') /\ forall y, In y (sinks s) -> y <> k -> In y (sinks s').
+Proof.
+  intros HI H He. pose proof (inv_nodup _ HI) as Hnd.
+  unfold step_raw in H.
+  destruct (ctl s) as [| |idx|idx x| | |start idx rem|idx why|ready| |site] eqn:Ec;
+    destruct e as [|ready'|q woke|woke|fsrc woke|k0 r|k0 y0 ok|k0 r|j r]; try discriminate;
+    try (destruct rem; discriminate); cbn in He; try discriminate.
+  - destruct r; try discriminate. injection He as ->.
+    destruct (nth_error (sinks s) idx) as [k'|] eqn:En; [|discriminate].
+    destruct (N.eqb_spec k k'); [subst k'|discriminate]. injection H as <-. simp_st.
+    split; [eapply swap_remove_removed; eassumption|intros y Hy Hne; eapply swap_remove_keeps; eassumption].
+  - destruct ok; try discriminate. injection He as ->.
+    destruct (nth_error (sinks s) idx) as [k'|] eqn:En; [|discriminate].
+    destruct ((k =? k') && (x =? y0)) eqn:Ek; [|discriminate].
+    apply andb_true_iff in Ek as [Ek _]. apply N.eqb_eq in Ek. subst k'. injection H as <-. simp_st.
+    split; [eapply swap_remove_removed; eassumption|intros y Hy Hne; eapply swap_remove_keeps; eassumption].
+  - destruct r; try discriminate. injection He as ->.
+    destruct (nth_error (sinks s) idx) as [k'|] eqn:En; [|discriminate].
+    destruct (N.eqb_spec k k'); [subst k'|discriminate]. injection H as <-. simp_st.
+    split; [eapply swap_remove_removed; eassumption|intros y Hy Hne; eapply swap_remove_keeps; eassumption].
+Qed.
